@@ -355,6 +355,9 @@ func Catalog(vp *[]ValuePos) []Item {
 	constant("hex-escape", baseType("binary", ast.BinaryTypeID), cString(`"\x41é"`, "Aé"))
 	constant("empty-string", str, cString(`""`, ""))
 	constant("ref", refType("Other"), cRef("other.VALUE"))
+	// quote characters written as escapes, in both quoting styles (a numeric escape is a character like any other)
+	constant("quote-escapes", listType(str), cList(cString(`'\x22'`, "\""), cString(`'\x27'`, "'"), cString(`"\x22"`, "\""), cString(`"\x27"`, "'"),
+		cString(`'\042'`, "\""), cString(`"\047"`, "'"), cString(`'\u0022'`, "\""), cString(`'a\"b'`, "a\"b"), cString(`"a\'b"`, "a'b"), cString(`'it\'s'`, "it's"), cString(`'"'`, "\""), cString(`"'"`, "'")))
 	constant("list", listType(i32), cList(cInt("1", 1), cInt("2", 2), cInt("3", 3)))
 	constant("empty-list", listType(str), cList())
 	constant("nested-list", listType(listType(str)), cList(cList(cString(`"x"`, "x")), cList()))
